@@ -82,6 +82,26 @@ def simulate_reads(rng, glen, cov, err, k):
     return reads
 
 
+def designed_reads(rng, k, hist):
+    """Reads of length exactly k (one window each): hist[c] distinct k-mers are given c copies each, so the
+    multiplicity histogram is exactly `hist` (k-mers are kept distinct on both strands)."""
+    seen, reads = set(), []
+    for c, n in sorted(hist.items()):
+        made = 0
+        while made < n:
+            s = gen.rand_seq(rng, k)
+            arms = s[:(k - 1) // 2] + s[(k - 1) // 2 + 1:]
+            r = revcomp(s)
+            rarms = r[:(k - 1) // 2] + r[(k - 1) // 2 + 1:]
+            if arms in seen or rarms in seen or arms == rarms:
+                continue
+            seen.add(arms); seen.add(rarms)
+            reads += [s if rng.random() < 0.5 else r for _ in range(c)]
+            made += 1
+    rng.shuffle(reads)
+    return reads
+
+
 def run(run, tier, seed):
     run.rule = ("design: MC_Cov - (a) every list of <=7 windows over 3 k-mers: run-length histogram = declarative multiplicity "
                 "histogram, row c <-> multiplicity c, truncation (threshold scaled to 2); (b) every table length <=7 x every "
@@ -121,12 +141,21 @@ def run(run, tier, seed):
     tmp = vlib.shm_dir("c20")
     try:
         nruns = 6 if tier == "quick" else 40
-        for ri in range(nruns):
+        for ri in range(nruns + 2):
             k = rng.choice([9, 15, 21, 31, 33, 41]) if ri else 31
             rc = ri % 3 != 0
             cov = rng.randint(10, 30) if tier == "quick" else rng.randint(10, 80)
             glen = int(max(600, 140 * math.sqrt(cov))) + rng.randint(0, 300)
-            reads = simulate_reads(rng, glen, cov, rng.choice([0.0, 0.005, 0.01, 0.03]), k)
+            if ri >= nruns:
+                # designed histograms: the last tabulated multiplicity is shared by EXACTLY 50 (then 51) k-mers
+                k = 15 if ri == nruns else 33
+                rc = True
+                last = 50 if ri == nruns else 51
+                hist = {1: 1500, 2: 150, 9: 60, 10: 110, 11: 160, 12: 200, 13: 160, 14: 110, 15: 70, 18: 80, 19: last, 20: 49, 21: 20}
+                reads = designed_reads(rng, k, hist)
+                cov, glen = 12, sum(hist.values())
+            else:
+                reads = simulate_reads(rng, glen, cov, rng.choice([0.0, 0.005, 0.01, 0.03]), k)
             half = len(reads) // 2
             f1, f2 = os.path.join(tmp, "c%d_1.fastq" % ri), os.path.join(tmp, "c%d_2.fastq" % ri)
             write_fastq(f1, reads[:half], ["I" * len(r) for r in reads[:half]])
@@ -165,7 +194,7 @@ def run(run, tier, seed):
                 run.nontriv(["cov", reads[:3], k, rc, len(reads)])
     finally:
         shutil.rmtree(tmp, ignore_errors=True)
-    ok, bad, states = vlib.validate_trace("Trace_Cov", events, "c20", shards=12, timeout=3000)
+    ok, bad, states = vlib.validate_trace("Trace_Cov", events, "c20", shards=12, timeout=600)
     run.states += states
     run.transitions += len(events)
     run.events += ok
